@@ -15,12 +15,13 @@ META = {
                  "proofs over an abstract REPL machine for all histories; the generated code is tied to the machine by "
                  "computation on tables and to the real REPL by differential runs on scripted sessions; oracle on the real "
                  "REPL fed line by line",
-    "level_text": "coq/Props/C40.v: for every history of inputs (any length, any values): runsource asks for more exactly on "
-                  "incomplete input; *e is the latest visible failure; without failed inputs *1 *2 *3 are the latest three "
-                  "results; on any history they are the latest three shifted values (C40_history_vars_actual); the full "
-                  "statement is REFUTED with the witness `1`, `(/ 1 0)` run on the generated code (C40_no_repeat_refuted). "
+    "level_text": "coq/Props/C40.v: for every history of inputs (any length, any values, failing and incomplete inputs "
+                  "interleaved in any way): runsource asks for more exactly on incomplete input; *1 *2 *3 are the results of "
+                  "the latest three inputs that were evaluated; *e is the latest visible failure; a failed or incomplete "
+                  "input leaves *1 *2 *3 unchanged, so no result occupies two of them (C40_history_vars, C40_no_repeat). "
                   "That the generated code implements the machine is checked by computation on 1328 single steps and 820 "
-                  "sessions (C40_generated_code_implements_step_partial); the lift to all values is not proved.",
+                  "sessions (C40_generated_code_implements_step_partial) and on regression sessions (C40_regressions); "
+                  "the lift to all values is not proved.",
     "level_note": "Trusted: Coq kernel (vm_compute for the tables and the witness); translator/state_py.py + state_repl.py; "
                   "the fragment semantics (validated against CPython by the scripted-session correspondence of this check); "
                   "the scripting of the opaque parts (compile/eval/output_fn) by `input`s. Printing of results and "
@@ -28,7 +29,7 @@ META = {
 }
 
 TRUSTED = [
-    "Coq 8.16.1 kernel (coqc, full .vo); vm_compute for the sweep tables and the refutation witness",
+    "Coq 8.16.1 kernel (coqc, full .vo); vm_compute for the sweep tables and the regression sessions",
     "axioms: none (Print Assumptions: Closed under the global context for every C40 theorem)",
     "translator/state_py.py, translator/state_repl.py: method bodies of hy/repl.py, set_last_exc, the running interpreter's "
     "code.InteractiveInterpreter.runsource, the class linearisations of hy/errors.py + hy/reader/exceptions.py + builtins, and "
@@ -277,8 +278,31 @@ def gen_input(rng, st):
         return dict(lines=[rng.choice(["(setv 1 2)", "(fn)", "(if)"])], kind=k, expect=("error", "HySyntaxError"))
     if k == "lex-error":
         return dict(lines=[rng.choice([")", "]", "(foo))"])], kind=k, expect=("error", "LexException"))
-    s = "s%d" % v
-    return dict(lines=['(len "%s' % s, 'x")'], kind="string-newline", expect=("value", len(s) + 2))
+    return dict(lines=['(+ %d (len "ab' % (v - 4), 'x"))'], kind="string-newline", expect=("value", v))
+
+
+def corpus_sessions():
+    """regression sessions (corpus/C40/sessions.json); the expectation of an input is computed by evaluating it
+    with hy.eval in a namespace that has seen the earlier inputs"""
+    import os
+    import hy
+    path = os.path.join(vlib.VERIF, "corpus", "C40", "sessions.json")
+    out = []
+    for sess in json.load(open(path))["sessions"]:
+        ns = {}
+        inputs = []
+        for lines in sess:
+            text = "\n".join(lines)
+            try:
+                v = hy.eval(hy.read_many(text), ns)
+                exp = ("none",) if v is None else ("value", v)
+                kind = "corpus-value"
+            except Exception as e:  # noqa: BLE001
+                exp = ("error", type(e).__name__)
+                kind = "corpus-error"
+            inputs.append(dict(lines=lines, kind=kind, expect=exp))
+        out.append(inputs)
+    return out
 
 
 def oracle(chk, n_sessions):
@@ -297,25 +321,24 @@ def oracle(chk, n_sessions):
         except Exception:
             return True
 
-    def matcher(rec, params):
-        i = rec.get("input", {})
-        return (rec.get("key") == "slot-repeats-one-result-after-failed-input"
-                and i.get("failed_input_kind") in params.get("kinds", [])
-                and i.get("repeated_is_previous_last_value") is True)
-    chk.matchers["c40_shift_on_failed_input"] = matcher
-
     saved = sys.excepthook
     sys.excepthook = lambda *a: None
     try:
-        for s in range(n_sessions):
+        corpus = corpus_sessions()
+        for s in range(-len(corpus), n_sessions):
             repl = fresh_repl()
             L = repl.locals
-            st = {"n": s * 100}
-            inputs = [gen_input(rng, st) for _ in range(rng.randint(1, 7))]
+            st = {"n": (s + len(corpus)) * 100}
+            if s < 0:
+                inputs = corpus[s + len(corpus)]
+                chk.count("corpus-session")
+            else:
+                inputs = [gen_input(rng, st) for _ in range(rng.randint(1, 7))]
             results = []       # results of evaluated inputs, latest first
             history = []
             for inp in inputs:
                 buf = []
+                before_slots = [L[M["*1"]], L[M["*2"]], L[M["*3"]]]
                 out, err = io.StringIO(), io.StringIO()
                 for li, line in enumerate(inp["lines"]):
                     buf.append(line)
@@ -336,6 +359,9 @@ def oracle(chk, n_sessions):
                        "print([r.locals[hy.mangle(k)] for k in ('*1','*2','*3')])\""
                        % (vlib.REPO, [l for h in history for l in h.split("\n")] + inp["lines"]))
                 slots = [L[M["*1"]], L[M["*2"]], L[M["*3"]]]
+                if exp[0] == "error" and slots != before_slots:
+                    chk.fail("failed-input-changed-the-slots", dict(desc, failed_input_kind=kind), repr(slots),
+                             repr(before_slots), how)
                 if exp[0] == "value":
                     results.insert(0, exp[1])
                     if printed != hy.repr(exp[1]) + "\n":
